@@ -1,6 +1,6 @@
 From Coq Require Import List NArith ZArith Bool.
 From LTV.C15 Require Import ParamsGen.
-From LTV.C15 Require Import Model Proofs ProofsMid ProofsTableA ProofsTableB ProofsTableC ProofsTokens ProofsCounters ProofsReply ProofsOwn ProofsPositive ProofsTx ModelSearch ProofsSearch ProofsPeers.
+From LTV.C15 Require Import Model Proofs ProofsMid ProofsTableA ProofsTableB ProofsTableC ProofsTokens ProofsCounters ProofsReply ProofsOwn ProofsPositive ProofsTx ModelSearch ProofsSearch ProofsPeers ProofsLive.
 Import ListNotations.
 Local Open Scope N_scope.
 
@@ -367,3 +367,14 @@ Theorem every_peer_reachable : forall l p, mp < lenN l -> lenN l <= Params.dht_t
   exists rnd, In (peer_bytes p) (get_peers rnd l).
 Proof. exact ProofsPeers.every_peer_reachable. Qed.
 Print Assumptions every_peer_reachable.
+
+(* reply_nodes_live (tree with /repo 5bd3da4, chain_inval probed behaviourally): for EVERY op list from
+   the initial state, the node list of a find_node / get_peers reply (closest_nodes) consists of nodes
+   that are in the routing table and not bad.  Invariant behind it: every entry of every bucket's
+   reply cache is such a node (ProofsLive.cache_live). *)
+Theorem reply_nodes_live : forall sha, chain_inval = true -> forall ownid c p t0 ops id e,
+  let t := tab (run sha (init ownid c p t0) ops) in
+  In e (snd (closest_nodes t id)) ->
+  exists b n, In b (tb t) /\ In n (bnodes b) /\ is_bad n = false /\ e = (nid n, nip n, nport n).
+Proof. exact ProofsLive.reply_nodes_live. Qed.
+Print Assumptions reply_nodes_live.
